@@ -11,6 +11,8 @@ inside the configuration, one record per configuration and one spec per (configu
 import IrVerif.Lemmas.DeviceNames
 import IrVerif.Lemmas.DeviceRTLegacy
 import IrVerif.Lemmas.DeviceInline
+import IrVerif.Lemmas.DeviceInlPass
+import IrVerif.Lemmas.DeviceInlAxes
 namespace IrVerif.Device
 
 /-! ### C19_step -/
@@ -32,7 +34,10 @@ namespace IrVerif.Device
     only where the configurations it references are registered; a shape is edited only on a value that
     is not sharded; a directly assigned tuple is itself well formed; clone / round trip of a model
     whose node and graph lists are closed under nesting; a round
-    trip at IR version >= 11 of a model whose named values have unique names.  (The former clause "a clone
+    trip at IR version >= 11 of a model whose named values have unique names along every scope chain
+    (`NamesChain`: for every graph, the values of the graph and of its enclosing graphs - what the deserializer
+    resolves by, innermost scope first; sibling subgraphs, function bodies and the main graph may reuse names,
+    a subgraph may not shadow a name of an enclosing graph, which is also what ONNX asks for).  (The former clause "a clone
     clones no value twice" is no longer needed: fix D350, `clone_node` remaps through the node-local io map.) -/
 theorem C19_step (w : World) (op : Op) (h : DevOK w) (hpre : Pre w op) : DevOK (step w op).1 := by
   rw [step_eq_stepD]
@@ -379,6 +384,36 @@ theorem C19_roundtrip_legacy (w : World) (h : DevOK w) (m : MId) (hir : (w.model
       ∀ n ∈ ((roundTrip w m).1.model w.models.length).nodes, ((roundTrip w m).1.node n).dev = []) :=
   roundTrip_legacy h m hir hcl hU
 
+/-- the round-trip hypothesis is per scope chain: main graph and function body both call their values "x" / "o" and
+    shard them; global uniqueness fails, `Pre` holds, the reload is faithful: the function-body node of the new
+    model (node 3) shards the new function input (value 6), not the main graph's "x" -/
+example :
+    let w := (run {} [.newModel 11, .newInput 0 "x" (some [.int 2, .int 3]), .newNode 0 [some 0] [("o", none)],
+      .addCfg 0 "c" (some 2) [], .shard 0 0 0 1 2 [0] none, .newFunction 0, .newInput 1 "x" (some [.int 4]),
+      .newNode 1 [some 2] [("o", none)], .shard 1 2 0 0 2 [] none, .shard 1 3 0 0 2 [] none]).1
+    DevOK w ∧ ¬ NamesUnique w (w.model 0) ∧ NamesChain w (w.model 0) ∧ Pre w (.roundTrip 0) ∧
+    (roundTrip w 0).2 = .ok ∧ ((roundTrip w 0).1.model 1).nodes = [2, 3] ∧
+    (((roundTrip w 0).1.node 3).dev.map (fun nc => nc.specs.map (·.value))) = [[6, 7]] ∧
+    ((roundTrip w 0).1.node 3).inputs = [some 6] ∧ ((roundTrip w 0).1.node 3).outputs = [7] := by
+  decide
+
+/-- sibling subgraphs (the branches of an `If`) may use the same names: both branches call their node output "h"
+    and shard it; `Pre` holds, the reload is faithful (the nodes 4 and 5 of the new model shard their own outputs 8
+    and 9).  A subgraph that SHADOWS a name of its enclosing graph is outside `Pre` (last line: the first branch
+    renamed to the outer "x"). -/
+example :
+    let w := (run {} [.newModel 11, .newInput 0 "x" none, .newNode 0 [some 0] [("o", none)],
+      .addCfg 0 "c" (some 2) [], .newSubgraph 0, .newSubgraph 0,
+      .newNode 1 [some 0] [("h", none)], .newNode 2 [some 0] [("h", none)],
+      .shard 1 2 0 0 2 [] none, .shard 2 3 0 1 2 [] none]).1
+    DevOK w ∧ ¬ NamesUnique w (w.model 0) ∧ NamesChain w (w.model 0) ∧ Pre w (.roundTrip 0) ∧
+    (roundTrip w 0).2 = .ok ∧
+    (((roundTrip w 0).1.model 1).nodes.map (fun n => ((roundTrip w 0).1.node n).dev.map (fun nc => nc.specs.map (·.value)))) =
+      [[[6]], [[7]], []] ∧
+    ((roundTrip w 0).1.model 1).nodes.map (fun n => ((roundTrip w 0).1.node n).outputs) = [[6], [7], [5]] ∧
+    ¬ Pre (step w (.rename 2 "x")).1 (.roundTrip 0) := by
+  decide
+
 /-- non-vacuity: an annotated IR-10 model (a main-graph node, a nested node and a function-body node carry
     annotations) is reloaded without them -/
 example :
@@ -441,6 +476,199 @@ example :
       .shard 0 0 0 0 2 [] none, .shard 0 1 0 0 2 [] none, .shard 0 2 0 1 2 [] none]).1
     DevOK w ∧ (instNode [(0, some 7), (1, none)] (w.node 0) 9).map (fun nd => (nd.inputs, nd.outputs, nd.dev)) =
       some ([some 7, none], [9], [⟨0, [⟨7, [], [⟨0, .unk, 2⟩]⟩, ⟨9, [], [⟨1, .unk, 2⟩]⟩], none⟩]) := by
+  decide
+
+/-! ### one history theorem for every IR version -/
+
+/-- the in-alphabet condition without the IR-version bound on round trips: a round trip is taken of a model
+    whose node / graph lists are closed under nesting and whose named values have unique names along every scope
+    chain, at ANY IR version; every other operation as in `Pre` -/
+def PreAny (w : World) (op : Op) : Prop :=
+  match op with
+  | .roundTrip m => Closed w (w.model m) ∧ NamesChain w (w.model m)
+  | _ => Pre w op
+
+instance (w : World) (op : Op) : Decidable (PreAny w op) := by
+  unfold PreAny; split <;> infer_instance
+
+/-- `Pre` implies `PreAny` (so the theorems below supersede `C19_step` / `C19_history`) -/
+theorem PreAny_of_Pre (w : World) (op : Op) (h : Pre w op) : PreAny w op := by
+  cases op with
+  | roundTrip m => exact ⟨h.2.1, h.2.2⟩
+  | _ => exact h
+
+/-- what a successful round trip below IR version 11 leaves: one more model, without configurations, and none
+    of its nodes (nested ones and function bodies included) annotated -/
+def LegacyClean (w : World) (op : Op) : Prop :=
+  ∀ m, op = .roundTrip m → (w.model m).irVersion < 11 → (step w op).2 = .ok →
+    (step w op).1.models.length = w.models.length + 1 ∧
+    ((step w op).1.model w.models.length).cfgs = [] ∧
+    ∀ n ∈ ((step w op).1.model w.models.length).nodes, ((step w op).1.node n).dev = []
+
+/-- **C19_step_any**: `C19_step` with round trips at every IR version: an operation satisfying `PreAny` keeps
+    `DevOK`, and a round trip below IR version 11 (where the serializer's gate writes no device field) yields a
+    model without configurations and without annotations - nothing dangles after the reload. -/
+theorem C19_step_any (w : World) (op : Op) (h : DevOK w) (hpre : PreAny w op) :
+    DevOK (step w op).1 ∧ LegacyClean w op := by
+  cases op with
+  | roundTrip m =>
+    obtain ⟨hcl, hS⟩ := hpre
+    by_cases hir : 11 ≤ (w.model m).irVersion
+    · refine ⟨C19_step w _ h ⟨hir, hcl, hS⟩, ?_⟩
+      intro m' hm' hlt
+      cases hm'
+      omega
+    · have hlt : (w.model m).irVersion < 11 := by omega
+      have := roundTrip_legacy_core h m hlt hS
+      rw [step_eq_stepD]
+      refine ⟨this.1, ?_⟩
+      intro m' hm' _ hok
+      cases hm'
+      rw [step_eq_stepD] at hok ⊢
+      exact this.2 hok
+  | _ => exact ⟨C19_step w _ h hpre, fun m hm => by cases hm⟩
+
+def PreAnyAll : World → List Op → Prop
+  | _, [] => True
+  | w, op :: rest => PreAny w op ∧ PreAnyAll (step w op).1 rest
+
+def PreAnyAll.dec : (ops : List Op) → (w : World) → Decidable (PreAnyAll w ops)
+  | [], _ => isTrue trivial
+  | op :: rest, w =>
+    have := PreAnyAll.dec rest (step w op).1
+    by unfold PreAnyAll; infer_instance
+
+instance (w : World) (ops : List Op) : Decidable (PreAnyAll w ops) := PreAnyAll.dec ops w
+
+/-- `LegacyClean` for every operation of a history, at the world it is applied to -/
+def LegacyCleanAll : World → List Op → Prop
+  | _, [] => True
+  | w, op :: rest => LegacyClean w op ∧ LegacyCleanAll (step w op).1 rest
+
+/-- **C19_history_any**: the history theorem with round trips at every IR version threaded through: after every
+    finite history whose operations satisfy `PreAny`, `DevOK` holds, and every successful round trip below IR
+    version 11 inside the history produced a model without configurations and annotations.  Supersedes
+    `C19_history` (`PreAny_of_Pre`) and absorbs `C19_roundtrip_legacy`. -/
+theorem C19_history_any (ops : List Op) : ∀ (w : World), DevOK w → PreAnyAll w ops →
+    DevOK (run w ops).1 ∧ LegacyCleanAll w ops := by
+  induction ops with
+  | nil => intro w h _; exact ⟨h, trivial⟩
+  | cons op rest ih =>
+    intro w h hp
+    obtain ⟨h1, h2⟩ := C19_step_any w op h hp.1
+    obtain ⟨h3, h4⟩ := ih (step w op).1 h1 hp.2
+    exact ⟨h3, h2, h4⟩
+
+/-- non-vacuity: an annotated IR-10 model with a function is reloaded (annotations gone), the reload is annotated
+    again and edited; the two roots reuse the name "x" (uniqueness per scope chain holds, global uniqueness does not);
+    the history is not in the alphabet of `C19_history` (`Pre` wants IR version >= 11) but satisfies `PreAnyAll` -/
+example :
+    let ops : List Op := [.newModel 10, .newInput 0 "x" (some [.int 2, .int 3]), .newNode 0 [some 0] [("o", none)],
+      .addCfg 0 "c" (some 2) [], .shard 0 0 0 1 2 [0] (some 1), .newFunction 0, .newInput 1 "x" none,
+      .newNode 1 [some 2] [("fo", none)], .shard 1 2 0 0 2 [] none,
+      .roundTrip 0, .addCfg 1 "d" (some 2) [], .shard 2 4 1 0 2 [] none, .replaceInput 2 0 none]
+    PreAnyAll {} ops ∧ ¬ PreAll {} ops ∧ (run {} ops).2.all (· = .ok) ∧
+    ¬ NamesUnique (run {} (ops.take 9)).1 ((run {} (ops.take 9)).1.model 0) ∧
+    ((run {} (ops.take 10)).1.model 1).nodes.length = 2 ∧ DevOK (run {} ops).1 := by
+  decide
+
+/-! ### InlinePass: the whole pass -/
+
+/-- **C19_inline_pass**: the complete `InlinePass` (`inlinePass`, `Model/DeviceInl.lean`: the loop over the nodes
+    of the main graph and of every subgraph, visiting the nodes inserted for a call; the instantiation of a call -
+    formal parameters bound to the actual arguments or to `None`, every body node cloned by `clone_node`, the
+    subgraphs of body nodes by `clone_graph`, every new output renamed by `_make_unique_name`, a returned
+    function input forwarded through an `Identity` node -; `replace_nodes_and_values` - shape and name of the
+    call outputs copied onto the replacement values, every use re-wired through `replace_input_with`, graph /
+    function outputs replaced, the new nodes inserted, the call node removed with `safe=True` -; the loop over
+    the functions that were not inlined; the deletion of the inlined functions).  From a world satisfying
+    `DevOK` in which every node of the heap is annotated with configurations of model `m` only (`HeapReg`),
+    whenever the pass does not raise: the configuration objects and the registrations of `m` are untouched, and
+    EVERY node of the heap - in particular every node of `m` after the pass: the re-wired users, the inlined
+    nodes at every nesting depth, the nodes of the functions that are left - satisfies `NodeWeak`: one record per
+    configuration, every record refers to a configuration registered on `m` (by identity), stages are
+    non-negative, **every spec targets an input or output of its node**, has at least one shard per axis and
+    device indices inside its configuration.  What is NOT claimed after inlining (and does fail, see the
+    example): the axis clauses of `SpecWF` for a spec whose target was substituted (an actual argument has
+    another rank than the formal parameter; the replacement of a call output takes the call output's shape) and
+    "one spec per value" (two formal parameters bound to the same argument).  Consequently the model of the
+    library's checker reports after the pass at most: a sharded value with an empty name (the replacement value
+    takes the call output's name, which may be empty), an axis out of range, an axis repeated - never a spec
+    outside its node, an undeclared / foreign configuration, `num_shards < 1` or a device index out of range. -/
+theorem C19_inline_pass (w : World) (h : DevOK w) (m : MId) (hreg : HeapReg w m) (t : ITab) (fuel : Nat)
+    (r : IOut) (hr : inlinePass fuel w m t = some r) :
+    (r.w.model m).cfgs = (w.model m).cfgs ∧ r.w.cfgs = w.cfgs ∧
+    (∀ n, NodeWeak (r.w.model m).cfgs r.w.cfgs (r.w.node n)) ∧
+    (∀ n ∈ (r.w.model m).nodes, ∀ nc ∈ (r.w.node n).dev,
+      nc.cfg ∈ (r.w.model m).cfgs ∧ ∀ s ∈ nc.specs, InIO (r.w.node n) s.value) ∧
+    (∀ e ∈ check r.w m, e = Err.valEmptyName ∨ e = Err.axisRange ∨ e = Err.axisRepeat) := by
+  have hj := inlinePass_WJ hr (WJ_of_DevOK h m hreg)
+  have hn : ∀ n, NodeWeak (r.w.model m).cfgs r.w.cfgs (r.w.node n) := by
+    intro n
+    rw [hj.hreg, hj.hcfgs]
+    exact hj.node n
+  refine ⟨hj.hreg, hj.hcfgs, hn, ?_, ?_⟩
+  · intro n _ nc hnc
+    obtain ⟨a, _, c⟩ := (hn n).2 nc hnc
+    exact ⟨a, fun s hs => (c s hs).1⟩
+  · intro e he
+    unfold check at he
+    simp only [List.mem_flatten, List.mem_map] at he
+    obtain ⟨l, ⟨n, _, rfl⟩, hel⟩ := he
+    obtain ⟨_, b, c⟩ := h.model m
+    refine checkNode_weak (hn n) ?_ ?_ e hel
+    · rw [hj.hreg]
+      intro x hx
+      simp only [World.cfg, hj.hcfgs]
+      exact b x hx
+    · rw [hj.hreg]
+      simp only [World.cfg, hj.hcfgs]
+      exact c
+
+/-- **C19_inline_pass_axes**: the rank-dependent half.  The model of the pass records in `subst` (ghost state)
+    the values whose rank-dependent checks are given up: the actual arguments of every inlined call, the values
+    that replace call outputs (they take the call output's shape) and the clones of such values.  If, in
+    addition to the hypotheses of `C19_inline_pass`, the inputs and initializers of every graph of the heap exist
+    (`GraphIds`), then after the pass `WeakOK` holds in full: every node satisfies `NodeWeak`, and every spec whose
+    target is NOT in `subst` still has all its axes in range for a known rank and none repeated after
+    normalisation - so for such a spec the checker's axis loop reports nothing: `axisRange` / `axisRepeat` can
+    only be reported for substituted targets. -/
+theorem C19_inline_pass_axes (w : World) (h : DevOK w) (m : MId) (hreg : HeapReg w m) (hg : GraphIds w) (t : ITab)
+    (fuel : Nat) (r : IOut) (hr : inlinePass fuel w m t = some r) :
+    WeakOK r.w m r.subst ∧
+    ∀ n, ∀ nc ∈ (r.w.node n).dev, ∀ s ∈ nc.specs, s.value ∉ r.subst →
+      checkDims (rankOf (r.w.value s.value)) [] s.dims = [] := by
+  have ha := inlinePass_AInv hr (AInv_of_DevOK h m hreg hg)
+  have hw : WeakOK r.w m r.subst := by
+    refine ⟨?_, ha.ax⟩
+    rw [ha.wj.hreg, ha.wj.hcfgs]
+    exact ha.wj.hnodes
+  refine ⟨hw, ?_⟩
+  intro n nc hnc s hs hns
+  rcases node_mem_or_default r.w n with h1 | h1
+  · obtain ⟨a1, a2⟩ := ha.ax _ h1 nc hnc s hs hns
+    have hsh := (((ha.wj.hnodes _ h1).2 nc hnc).2.2 s hs).2.1
+    exact checkDims_nil _ _ [] a1 a2 hsh (by simp)
+  · rw [h1] at hnc; simp at hnc
+
+/-- non-vacuity, and the weaker invariant is the right one: a function `F(fx) = Body(fx) -> fo` whose body node
+    shards `fx` (unknown rank) along axis 1 and `fo` along axis 0; a call `F(x)` with `x` of rank 1; a user of the
+    call output that shards it.  After the pass: the inlined node (node 3) targets `x` and its own output, the
+    user lost its spec on the call output, the function is gone, the hypotheses held - and the checker reports
+    `axisRange` for the substituted argument: `DevOK` itself is lost. -/
+example :
+    let w := (run {} [.newModel 11, .addCfg 0 "c" (some 2) [], .newFunction 0, .newInput 1 "fx" none,
+      .newNode 1 [some 0] [("fo", some [.int 2])], .shard 0 0 0 1 2 [] none, .shard 0 1 0 0 2 [] none,
+      .newInput 0 "x" (some [.int 4]), .newNode 0 [some 2] [("c", none)], .newNode 0 [some 3] [("u", none)],
+      .shard 2 3 0 0 2 [] none]).1
+    let t : ITab := { callee := [(1, 1)], outs := [(1, [1]), (0, [4])] }
+    DevOK w ∧ HeapReg w 0 ∧ GraphIds w ∧ (w.node 2).dev ≠ [] ∧
+    (inlinePass 10 w 0 t).map (·.subst) = some [2, 5] ∧
+    (inlinePass 10 w 0 t).map (fun r => ((r.w.model 0).nodes, (r.w.model 0).funcs, (r.w.node 3).inputs)) =
+      some ([2, 3], [], [some 2]) ∧
+    (inlinePass 10 w 0 t).map (fun r => ((r.w.node 3).dev, (r.w.node 2).inputs, (r.w.node 2).dev)) =
+      some ([⟨0, [⟨2, [], [⟨1, .unk, 2⟩]⟩, ⟨5, [], [⟨0, .int 2, 2⟩]⟩], none⟩], [some 5], [⟨0, [], none⟩]) ∧
+    (inlinePass 10 w 0 t).map (fun r => (check r.w 0, decide (DevOK r.w))) = some ([Err.axisRange], false) := by
   decide
 
 end IrVerif.Device
